@@ -189,7 +189,7 @@ func newFullRun(r *vlib.Run, c fullCase) (*fullRun, error) {
 			cfg.MaxConcurrentQueries = 256 // per-zone quota max(256/16,16) = 16
 		case "enforce":
 			cfg.RecursionFirewall.Mode = config.RecursionFirewallModeEnforce
-			cfg.RecursionFirewall.MaxOutboundQueries = 1
+			cfg.RecursionFirewall.MaxOutboundQueries = uint32(1 + c.Spec.Seed%3)
 		case "killswitch":
 			no := false
 			cfg.RFC9520 = &no
@@ -238,6 +238,10 @@ func (f *fullRun) applyMode(z *fullZone) {
 		f.failed[z.apex] = true
 	case "half":
 		z.servers[0].SetDefault(scriptFor(f.c.Spec.Half))
+		if f.c.Spec.Half != "drop" {
+			// the failing server answers first, the healthy one a moment later
+			z.servers[1].SetDefault(authsim.Delay(15 * time.Millisecond))
+		}
 		f.partly[z.apex] = true
 	case "dead":
 		for _, s := range z.servers {
@@ -924,8 +928,8 @@ func (f *fullRun) scenarioEnforce() {
 		_ = i
 		qt := dns.TypeA
 		out := f.Q("local-budget", f.client(), name, qt, false, qmods{local: "budget"})
-		if !(out.HasReply && out.Rcode == dns.RcodeServerFailure) {
-			// the budget was enough: not a local failure after all
+		if !(out.HasReply && out.Rcode == dns.RcodeServerFailure && strings.Contains(out.EDEText, "budget")) {
+			// the budget was enough (or the failure is not the budget's): not a local failure after all
 			delete(f.m.local, f.key(name, qt, false))
 			delete(f.locals, f.key(name, qt, false))
 			f.r.Count("full_budget_not_exhausted", 1)
